@@ -761,6 +761,10 @@ impl<'b, 'a: 'b> FmtVisitor<'a> {
         main_span: Span,
     ) {
         self.format_missing_with_indent(source!(self, item_span).lo());
+        // The skipped range is recorded in lines of the output: the item starts on the current
+        // output line, which need not be the line it starts on in the source.
+        let out_start = self.line_number + 1;
+        let src_start = self.psess.line_of_byte_pos(source!(self, item_span).lo());
         // do not take into account the lines with attributes as part of the skipped range
         let attrs_end = attrs
             .iter()
@@ -772,6 +776,7 @@ impl<'b, 'a: 'b> FmtVisitor<'a> {
         // or it can be on the same line as the last attribute.
         // So here we need to take a minimum between the two.
         let lo = std::cmp::min(attrs_end + 1, first_line);
+        let lo = (lo + out_start).saturating_sub(src_start);
         self.push_rewrite_inner(item_span, None);
         let hi = self.line_number + 1;
         self.skipped_range.borrow_mut().push((lo, hi));
